@@ -1,5 +1,11 @@
 package driver
 
+import (
+	"os/exec"
+	"path/filepath"
+	"strings"
+)
+
 // Properties is the registry of checks; see DESIGN.md section 4.
 var Properties = map[string]*Property{}
 
@@ -213,5 +219,36 @@ func init() {
 			"Length/Buffer: the oracle sums in the same left-to-right order; math.Hypot/Cos/Sin are uninterpreted",
 		},
 		Outside: []string{"polygons with more vertices", "arbitrary floats for Area (rounding of the sums)", "the perpendicular-foot case of distPointToSegment (arithmetic on a rounded quotient)"},
+	})
+	polyclipGeom := ""
+	if out, err := exec.Command("go", "env", "GOMODCACHE").Output(); err == nil {
+		polyclipGeom = filepath.Join(strings.TrimSpace(string(out)), "github.com/ctessum/polyclip-go@v1.1.0", "geom.go")
+	}
+	clipHook := []HookSpec{{File: polyclipGeom, Funcs: []string{"Construct"}, Exported: true,
+		Decls: "// set by the verification harness: replaces the clipper by a recording stub\nvar VHook_Construct func(p Polygon, operation Op, clipping Polygon) Polygon"}}
+	reg(&Property{
+		ID: "C01", Pkgs: []string{"."}, Level: "model_checking", Hooks: clipHook,
+		Opts: []HarnessOpt{{Prefix: "VH_C01_", IfConv: true, MaxUnwind: 40, Merge: geomMerge}},
+		Rule: "one evaluation = one explored path (receiver/argument types, operation, ring and vertex counts, shortcut taken) with all coordinates free non-NaN doubles; non-trivial = path ends with all assertions discharged",
+		Bounds: map[string]string{
+			"operands": "Polygon (<=2 rings x <=3 vertices), MultiPolygon (2 members), *Bounds, in both positions; all four operations",
+			"clipper":  "replaced by a recording stub returning <=2 contours x <=3 vertices (marshalling), or the real polyclip code on operands it answers without sweeping (one operand empty, or bounding boxes disjoint)",
+		},
+		Assumptions: []string{
+			"reduced scope: the sweep-line construction inside polyclip-go (a dependency) is not executed; the claim is that ctessum/geom sends every ring of both operands with the right operation, returns every contour closed, and that the *Bounds shortcuts and polyclip's trivial cases are pointwise correct",
+			"pointwise clause: membership of the test point in the polygonal argument is an unconstrained boolean implied to lie in the argument's bounding box",
+		},
+		Outside: []string{"correctness of the sweep for operands whose bounding boxes overlap (event queue, intersections, connector): pointer-rich sorting code with FP divisions in path conditions, in a dependency"},
+	})
+	reg(&Property{
+		ID: "C14", Pkgs: []string{"."}, Level: "model_checking", Hooks: clipHook,
+		Opts: []HarnessOpt{{Prefix: "VH_C14_", IfConv: true, MaxUnwind: 40, Merge: geomMerge}},
+		Rule: "one evaluation = one explored path (line/multi-line, polygonal type, counts) with all coordinates free non-NaN doubles; non-trivial = path ends with all assertions discharged",
+		Bounds: map[string]string{
+			"lines":    "LineString <=3 vertices, MultiLineString of two members; polygonal argument as in C01",
+			"clipper":  "recording stub returning <=2 chains x <=3 vertices, or the real polyclip code where it answers without sweeping",
+		},
+		Assumptions: []string{"reduced scope: Clip returns exactly the chains the clipper produces (closing vertex appended and stripped again), having sent every member line and every ring; where the pieces lie is the dependency's sweep"},
+		Outside:     []string{"position and total length of the clipped pieces for lines that enter the polygon's bounding box (polyclip's CLIPLINE sweep)"},
 	})
 }
